@@ -335,7 +335,7 @@ def run(tier, seed, replay=None):
                 gs = graphemes_of(t["buf"], t["fresh"])
                 qreqs.append({"op": "motion", "gs": gs, "cur": t["cur"]["value"], "excl": t["cur"]["exclusive"],
                               "selecting": bool(t["sel_mode"]) and bool(t["sel_range"]), "ws": [is_ws(g) for g in gs],
-                              "motion": mm.group(2), "count": int(mm.group(1)), "appending": t["verb"] == "InsertMode"})
+                              "motion": mm.group(2), "count": int(mm.group(1)), "has_verb": t["verb"] is not None})
                 qmeta.append((c, t, mm.group(2)))
     for (c, t, name), m in zip(qmeta, batch(model_driver, qreqs)):
         R.count("motion_model:" + name)
@@ -397,11 +397,11 @@ def run(tier, seed, replay=None):
                 mm = re.search(r"motion=Some\(MotionCmd\((\d+), CharSearch\((Forward|Backward), (On|Before), '(.*)'\)\)\) flags=", t["cmd"], re.S)
                 if mm:
                     xreqs.append({"op": "charsearch", "gs": gs, "cur": t["cur"]["value"], "excl": t["cur"]["exclusive"], "fwd": mm.group(2) == "Forward",
-                                  "before": mm.group(3) == "Before", "ch": parse_char(mm.group(4)), "count": int(mm.group(1))})
+                                  "before": mm.group(3) == "Before", "ch": parse_char(mm.group(4)), "count": int(mm.group(1)), "has_verb": t["verb"] is not None})
                     xmeta.append((c, t, "charsearch", None))
                 mm = re.search(r"motion=Some\(MotionCmd\((\d+), TextObj\(Word\((Normal|Big), (Inside|Around)\)\)\)\) flags=", t["cmd"])
                 if mm:
-                    xreqs.append({"op": "textobj_word", "cls": [cls(g) for g in gs], "cur": t["cur"]["value"], "big": mm.group(2) == "Big", "around": mm.group(3) == "Around"})
+                    xreqs.append({"op": "textobj_word", "cls": [4 if g == "\n" else cls(g) for g in gs], "cur": t["cur"]["value"], "big": mm.group(2) == "Big", "around": mm.group(3) == "Around"})
                     xmeta.append((c, t, "textobj_word", None))
             elif t["k"] == "lb_done" and curlb is not None:
                 lb, done = curlb, t
